@@ -1165,9 +1165,12 @@ def normalise_idioms(tree):
         def visit_While(self, n):
             self.generic_visit(n)
             n.test = cond(n.test)
-            if isinstance(n.test, ast.Constant) and n.test.value is True and not n.orelse and n.body:
+            if not n.orelse and n.body:
                 # peel leading exit guards:  `if c: break`   and   `b = <expr>` + `if b: break` / `if not b: break`
-                conds, body = [], list(n.body)
+                # (`while t: if c: break; ...`  ==  `while t and not c: ...`)
+                always = isinstance(n.test, ast.Constant) and n.test.value is True
+                conds, body = ([] if always else [n.test]), list(n.body)
+                n_own = len(conds)
                 while body:
                     g = body[0]
                     if isinstance(g, ast.If) and not g.orelse and len(g.body) == 1 and isinstance(g.body[0], ast.Break):
@@ -1191,7 +1194,7 @@ def normalise_idioms(tree):
                         break
                     p = _negated(c)
                     conds.append(p if p is not None else ast.copy_location(ast.UnaryOp(ast.Not(), c), c))
-                if conds and not any(isinstance(x, ast.Break) for s_ in body for x in ast.walk(s_) if False):
+                if len(conds) > n_own:
                     n.test = conds[0] if len(conds) == 1 else ast.copy_location(ast.BoolOp(ast.And(), conds), n)
                     n.body = body or [ast.copy_location(ast.Pass(), n)]
             if n.orelse and not has_break(n.body):
